@@ -30,10 +30,10 @@ ASSUMPTIONS = [
 TIMEOUT = {"quick": 1800, "thorough": 7200}
 MIN_COUNTERS = {"quick": {"assignments_checked": 900, "static_mask_assignments": 20, "string_forms_checked": 30,
                           "system_assignments_checked": 40, "nonzero_pairs_min": 1, "partial_specifications_checked": 15,
-                          "assignments_on_parameter_batches": 200, "system_dyn_default_checks": 4, "edge_of_domain_checks": 6},
+                          "assignments_on_parameter_batches": 200, "system_dyn_default_checks": 4, "edge_of_domain_checks": 6, "forward_problem_assignments": 8},
                 "thorough": {"assignments_checked": 30000, "static_mask_assignments": 100, "string_forms_checked": 150,
                              "system_assignments_checked": 400, "nonzero_pairs_min": 1, "partial_specifications_checked": 60,
-                             "assignments_on_parameter_batches": 1000, "system_dyn_default_checks": 4, "edge_of_domain_checks": 18}}
+                             "assignments_on_parameter_batches": 1000, "system_dyn_default_checks": 4, "edge_of_domain_checks": 18, "forward_problem_assignments": 24}}
 GROUPS = ["nn", "theta", "phi", "kappa"]
 TERMS = {"ode": ["dyn_loss", "initial_condition", "observations"],
          "statio": ["dyn_loss", "norm_loss", "boundary_loss", "observations"],
@@ -285,6 +285,8 @@ def run_case(case, rec):
             check(bits, vals, jac, "partial-specification/%s" % kind, "given=%s code=%d" % ("+".join(ss), code))
         if kind in ("ode", "statio"):
             edge_of_domain(rec, kind, pr, rng)
+        if kind == "ode":
+            forward_problem(rec, pr, rng)
         rec.set_sample(kind=kind, mode="strings", combos=[list(c) for c in pick[:4]])
         return
 
@@ -328,6 +330,54 @@ def edge_of_domain(rec, kind, pr, rng):
                           "network gradient is not finite / is zero although the network parameters are selected")
         if label == "boolean-tree" and not np.isfinite(float(np.asarray(g.eq_params["theta"]))):
             rec.violation("edge-of-domain/%s/selected-finite-gradient/%s" % (kind, label), "d total / d theta is not finite")
+
+
+def forward_problem(rec, pr, rng):
+    """A plain forward problem: eq_params is empty, the only parameter group is the network.  Each term's mask still
+    decides whether that term's gradient reaches the network."""
+    import jax
+    import jax.numpy as jnp
+    import jinns
+    from jinns.parameters import Params
+
+    from .. import eqs, fields, nets
+
+    net = nets.Net(fields.TrigField(int(rng.integers(1, 10 ** 6)), 1, 1), "ODE")  # reads no equation parameter
+    params = Params(nn_params=net.nn_params(), eq_params={})
+    batch = jinns.data.ODEBatch(temporal_batch=jnp.asarray(rng.uniform(0, 1, 4)))
+    DKc = jinns.parameters.DerivativeKeysODE
+    tnames = ["dyn_loss", "initial_condition"]
+
+    def build(dk):
+        return guard.call(jinns.loss.LossODE, u=net.pinn(), dynamic_loss=eqs.ForwardODE(), params=params,
+                          initial_condition=(0.25, jnp.asarray([0.4])), **({"derivative_keys": dk} if dk is not None else {}))
+
+    def grads(l):
+        f = lambda p: jnp.stack([l.evaluate(p, batch)[0]] + [l.evaluate(p, batch)[1][t] for t in tnames])
+        return np.asarray(f(params)), [flat(jax.tree_util.tree_map(lambda a, i=i: a[i], jax.jacrev(f)(params).nn_params))
+                                       for i in range(1 + len(tnames))]
+
+    v0, G = grads(build(None))  # default = network selected everywhere
+    if not all(np.max(np.abs(g)) > 1e-7 for g in G[1:]):
+        rec.inconcl("forward problem: a term has no gradient with respect to the network")
+        return
+    for bits in itertools.product((0, 1), repeat=len(tnames)):
+        forms = {"boolean-tree": DKc(params=params, **{t: Params(nn_params=bool(b), eq_params={}) for t, b in zip(tnames, bits)}),
+                 "from_str": guard.call(DKc.from_str, params, **{t: ("nn_params" if b else "eq_params") for t, b in zip(tnames, bits)})}
+        for label, dk in forms.items():
+            v, S = grads(build(dk))
+            rec.count("forward_problem_assignments")
+            if not close(v, v0, 1e-12, 1e-14):
+                rec.violation("forward-problem/loss-value-depends-on-mask/%s" % label, "values %s vs %s" % (v, v0))
+            exp_tot = sum(G[1 + k] * b for k, b in enumerate(bits))
+            if not close(S[0], exp_tot, 1e-9, 1e-11):
+                rec.violation("forward-problem/total-gradient/network/%s" % label,
+                              "eq_params is empty, masks %s: d total / d nn = %s, expected the sum over selecting terms %s"
+                              % (dict(zip(tnames, bits)), S[0][:3], np.asarray(exp_tot)[:3]))
+            for k, b in enumerate(bits):
+                if not b and np.any(S[1 + k] != 0.0):
+                    rec.violation("forward-problem/term-gradient/%s/unselected-nonzero/%s" % (tnames[k], label),
+                                  "eq_params is empty: d %s / d nn = %s although the term does not select the network" % (tnames[k], S[1 + k][:3]))
 
 
 def _loss_kwargs(pr, dk):
